@@ -72,6 +72,15 @@ def _palette_name(fn: ast.FunctionDef) -> Optional[str]:
             for s_ in ast.walk(n):
                 if isinstance(s_, ast.Subscript) and isinstance(s_.value, ast.Name) and isinstance(s_.slice, ast.Name) and s_.slice.id == par and any(call_name(c) == "pack" for c in ast.walk(n) if isinstance(c, ast.Call)):
                     return s_.value.id
+    # no closure of that shape: the list read as sixteen header bytes
+    for n in ast.walk(fn):
+        if isinstance(n, ast.Assign) and len(n.targets) == 1 and isinstance(n.targets[0], ast.Name) and isinstance(n.value, ast.ListComp) and any(isinstance(c, ast.Call) and call_name(c) == "ord" for c in ast.walk(n.value)):
+            src = n.value
+            sixteen = any(isinstance(c, ast.Call) and call_name(c) == "read" and c.args and isinstance(c.args[0], ast.Constant) and c.args[0].value == 16 for c in ast.walk(src)) or any(
+                isinstance(c, ast.Call) and call_name(c) == "range" and len(c.args) == 1 and isinstance(c.args[0], ast.Constant) and c.args[0].value == 16 for c in ast.walk(src)
+            )
+            if sixteen:
+                return n.targets[0].id
     return None
 
 
@@ -95,7 +104,28 @@ def d1(ctx: Ctx):
     for dec in ("hrstoppm", "mgetoppm", "cm3toppm", "rattoppm"):
         fn = D.fn(dec, "convert")
         cl = _palette_closures(fn)
-        ctx.need(cl, dec, "no closure that maps palette[x] to an RGB triple found in convert()")
+        if not cl:
+            # no closure of the classic shape: every `pack([r, g, b])` over one variable that ranges over the palette
+            packs = [n for n in ast.walk(fn) if isinstance(n, ast.Call) and call_name(n) == "pack" and n.args and isinstance(n.args[0], ast.List) and len(n.args[0].elts) == 3]
+            ctx.need(packs, dec, "no expression that maps a palette entry to an RGB triple (`pack([r, g, b])`) found in convert()")
+            pal = _palette_name(fn)
+            for k_, pk in enumerate(packs):
+                n_closures += 1
+                free = sorted({x.id for e in pk.args[0].elts for x in ast.walk(e) if isinstance(x, ast.Name) and isinstance(x.ctx, ast.Load)} - {"getbit"})
+                ctx.need(len(free) == 1, f"{dec}.pack#{k_ + 1}", f"the colour channels depend on {free}, not on one palette entry")
+                var = free[0]
+                from_pal = any(isinstance(g, ast.comprehension) and isinstance(g.target, ast.Name) and g.target.id == var and isinstance(g.iter, ast.Name) and g.iter.id == pal for g in ast.walk(fn)) or any(
+                    isinstance(a, ast.Assign) and isinstance(a.targets[0], ast.Name) and a.targets[0].id == var and isinstance(a.value, ast.Subscript) and isinstance(a.value.value, ast.Name) and a.value.value.id == pal for a in ast.walk(fn)
+                )
+                ctx.idiom(f"{dec}.pack#{k_ + 1}:palette-entry", from_pal, True, file=DECODERS[dec], line=pk.lineno)
+                for ch, (e, r) in enumerate(zip(pk.args[0].elts, ref)):
+                    try:
+                        v = trim(bit_eval(e, {var: var_bits("c", 8)}))
+                    except BitEvalError as ex:
+                        raise AnalysisError("D1", f"{dec}.pack#{k_ + 1}", f"cannot evaluate `{unparse(e)}`: {ex}")
+                    ok = v == r
+                    ctx.ob(f"{dec}.pack#{k_ + 1}:{'RGB'[ch]}", ok, "" if ok else f"channel {'RGB'[ch]} is `{unparse(e)}`; the CoCo 3 code is `{REF_RGB[ch]}`", file=DECODERS[dec], line=e.lineno)
+            continue
         for c in cl:
             n_closures += 1
             param = c.args.args[0].arg
@@ -122,8 +152,8 @@ def d1(ctx: Ctx):
     m = D.mods["veftopng"]
     tbl = None
     for n in ast.walk(m.tree):
-        if isinstance(n, ast.Assign) and isinstance(n.targets[0], ast.Name) and n.targets[0].id == "coco3_rgb" and isinstance(n.value, (ast.List, ast.Tuple)):
-            tbl = n
+        if isinstance(n, ast.Assign) and isinstance(n.targets[0], ast.Name) and isinstance(n.value, (ast.List, ast.Tuple)) and len(n.value.elts) >= 32 and all(isinstance(e, (ast.Tuple, ast.List)) and len(e.elts) == 3 for e in n.value.elts):
+            tbl = n  # the colour table: a long list of (r, g, b) triples, whatever it is called
     ctx.need(tbl is not None, "veftopng.coco3_rgb", "palette table not found")
     entries = tbl.value.elts
     ctx.ob("veftopng.coco3_rgb:len", len(entries) == 64, "" if len(entries) == 64 else f"table has {len(entries)} entries, the colour code has 64 values", file=DECODERS["veftopng"], line=tbl.lineno)
@@ -459,6 +489,7 @@ class _Count:
         self.tables: Dict[str, int] = {}  # table name -> bytes per entry
         self.outs: Set[str] = _out_names(fn)
         self.forced: Dict[str, int] = {}  # case split: header byte name -> value
+        self.vals: Dict[str, Poly] = {}  # local name -> byte length of the bytes value it holds
 
     def bytes_of(self, e: ast.AST) -> Optional[Poly]:
         """Length in bytes of the value written."""
@@ -471,13 +502,15 @@ class _Count:
             if cn == "join" and e.args and isinstance(e.args[0], ast.Name) and e.args[0].id in self.buffers:
                 return self.buffers[e.args[0].id]
             if cn == "format":
-                return None  # header text
+                return Poly.const(0)  # header text (counted separately)
         if isinstance(e, ast.BinOp) and isinstance(e.op, ast.Mult):
             l = self.bytes_of(e.left)
             if l is not None:
                 return l * poly_eval(e.right, self.env)
         if isinstance(e, ast.Subscript) and isinstance(e.value, ast.Name) and e.value.id in self.tables:
             return Poly.const(self.tables[e.value.id])
+        if isinstance(e, ast.Name) and e.id in self.vals:
+            return self.vals[e.id]
         if isinstance(e, ast.Constant) and isinstance(e.value, (str, bytes)):
             return Poly.const(len(e.value))
         return None
@@ -541,7 +574,8 @@ class _Count:
         if _is_out_write(c, self.outs):
             b = self.bytes_of(c.args[0]) if c.args else None
             if b is None:
-                return Poly.const(0)
+                # the size of what is written cannot be derived: the count would be wrong, not merely imprecise
+                raise AnalysisError("D4", f"{self.dec}.write", f"cannot derive the number of bytes written by `{unparse(c)[:80]}` (line {c.lineno})")
             return b
         if cn in self.nested and depth < 4 and isinstance(c.func, ast.Name):
             total = self.count(self.nested[cn].body, depth + 1)
@@ -583,6 +617,14 @@ class _Count:
             self.env_len = dict(self.env_len)
             self.env_len[name] = poly_eval(rd.args[0], self.env)
             return
+        if isinstance(v, ast.ListComp):
+            bl = self.bytes_of(v.elt)
+            if bl is not None and bl.is_const() is not None and bl.is_const() > 0:
+                self.tables[name] = bl.is_const()
+                return
+        bl = self.bytes_of(v) if isinstance(v, (ast.Call, ast.Subscript)) else None
+        if bl is not None and bl.terms and not _read_call(v):
+            self.vals[name] = bl
         # tables of packed triples
         if isinstance(v, ast.ListComp) and isinstance(v.elt, ast.Call) and call_name(v.elt) == "pack":
             it = v.generators[0].iter
@@ -621,6 +663,41 @@ def _header_write(fn: ast.FunctionDef) -> Optional[Tuple[ast.Call, str, List[ast
     return None
 
 
+# what the counting / read-discipline rules model of Python (everything the decoders use today, plus harmless
+# siblings).  A decoder that steps outside gets "cannot decide" (ANALYSIS-ERROR), never a made-up count.
+MODELLED_CALLS = {
+    "Exception", "append", "chr", "clip", "debug", "exit", "format", "getbit", "getsize", "index", "int", "iotostr", "join", "ord", "pack", "range",
+    "read", "rstrip", "sqrt", "strtoio", "write", "len", "min", "max", "abs", "bytes", "bytearray", "tuple", "list", "strip", "lstrip", "isfile", "remove",
+    "ValueError", "IOError", "OSError", "RuntimeError", "str", "bool", "float", "hex", "find", "from_bytes", "unpack",
+}
+MODELLED_NODES = {
+    "Add", "Assign", "Attribute", "AugAssign", "BinOp", "BitAnd", "BoolOp", "Break", "Call", "Compare", "Constant", "Eq", "Expr", "FloorDiv", "For", "FunctionDef",
+    "Gt", "GtE", "If", "IfExp", "LShift", "List", "ListComp", "Load", "Lt", "LtE", "Mod", "Mult", "Name", "Not", "NotEq", "Or", "Pass", "RShift", "Raise", "Return", "Slice",
+    "Store", "Sub", "Subscript", "USub", "UnaryOp", "While", "arg", "arguments", "comprehension", "Tuple", "And", "BitOr", "BitXor", "Div", "JoinedStr", "FormattedValue",
+    "Invert", "UAdd", "Is", "IsNot", "In", "NotIn", "keyword", "AnnAssign", "Assert", "Del", "Delete",
+}
+
+
+def _unmodelled(fn: ast.FunctionDef) -> List[str]:
+    closures = {n.name for n in ast.walk(fn) if isinstance(n, ast.FunctionDef)}
+    out: List[str] = []
+    for n in ast.walk(fn):
+        k = type(n).__name__
+        if k not in MODELLED_NODES:
+            out.append(f"{k} (line {getattr(n, 'lineno', '?')})")
+        elif isinstance(n, ast.Call):
+            cn = call_name(n)
+            if cn not in MODELLED_CALLS and cn not in closures:
+                out.append(f"call of {cn}() (line {n.lineno})")
+    return sorted(set(out))[:6]
+
+
+def _need_modelled(ctx: Ctx, rid: str, dec: str, fn: ast.FunctionDef):
+    bad = _unmodelled(fn)
+    if bad:
+        raise AnalysisError(rid, dec, "the decoder uses constructs this rule does not model: " + ", ".join(bad))
+
+
 # option validators: what they guarantee about the value
 VALIDATOR_FACTS = {"check_positive": "> 0", "check_zero_or_positive": ">= 0"}
 
@@ -631,6 +708,11 @@ def d4(ctx: Ctx):
     for dec in ("hrstoppm", "maxtoppm", "pixtopgm", "mgetoppm", "cm3toppm", "rattoppm"):
         rel = DECODERS[dec]
         fn = D.fn(dec, "convert")
+        try:
+            _need_modelled(ctx, "D4", dec, fn)
+        except AnalysisError as e_:
+            ctx.errors.append(e_)
+            continue
         hw = _header_write(fn)
         ctx.need(hw is not None, f"{dec}.header", "PPM/PGM header write not found")
         call, fmt, args = hw
@@ -895,6 +977,11 @@ def d5(ctx: Ctx):
     for dec in ("hrstoppm", "maxtoppm", "pixtopgm", "mgetoppm", "cm3toppm", "rattoppm"):
         rel = DECODERS[dec]
         fn = D.fn(dec, "convert")
+        try:
+            _need_modelled(ctx, "D5", dec, fn)
+        except AnalysisError as e_:
+            ctx.errors.append(e_)
+            continue
         parents: Dict[int, ast.AST] = {}
         for n in ast.walk(fn):
             for c in ast.iter_child_nodes(n):
@@ -979,6 +1066,11 @@ def d6(ctx: Ctx):
     for dec in ("rattoppm", "mgetoppm", "cm3toppm", "hrstoppm", "maxtoppm", "pixtopgm"):
         rel = DECODERS[dec]
         fn = D.fn(dec, "convert")
+        try:
+            _need_modelled(ctx, "D6", dec, fn)
+        except AnalysisError as e_:
+            ctx.errors.append(e_)
+            continue
         parents: Dict[int, ast.AST] = {}
         for n in ast.walk(fn):
             for c in ast.iter_child_nodes(n):
@@ -1263,7 +1355,24 @@ def d12(ctx: Ctx):
                 eq = isinstance(n.test.ops[0], ast.Eq)
                 found[k] = (ints, eq, n.lineno)
                 named[k] = {a: b for a, b in vals.items() if isinstance(b, int)}
-    ctx.need(len(found) >= 2, "veftopng.types", f"only {len(found)} `if data[1] == k` type branches recognised (idiom lost)")
+    if not found:
+        # table form: {type byte: (five integers)} looked up with data[1], unpacked into five names
+        for n in ast.walk(D.mods["veftopng"].tree):
+            if isinstance(n, ast.Dict) and len(n.keys) >= 2 and all(isinstance(k_, ast.Constant) and isinstance(k_.value, int) for k_ in n.keys) and all(isinstance(v_, ast.Tuple) and len(v_.elts) == 5 and all(isinstance(x, ast.Constant) and isinstance(x.value, int) for x in v_.elts) for v_ in n.values):
+                names5 = None
+                for a_ in ast.walk(st):
+                    if isinstance(a_, ast.Assign) and isinstance(a_.targets[0], ast.Tuple) and len(a_.targets[0].elts) == 5 and all(isinstance(x, ast.Name) for x in a_.targets[0].elts):
+                        names5 = [x.id for x in a_.targets[0].elts]
+                keyed_by_type = any(isinstance(c, ast.Call) and isinstance(c.func, ast.Attribute) and c.func.attr == "get" and c.args and isinstance(c.args[0], ast.Subscript) and isinstance(c.args[0].slice, ast.Constant) and c.args[0].slice.value == 1 for c in ast.walk(st)) or any(
+                    isinstance(c, ast.Subscript) and isinstance(c.slice, ast.Subscript) and isinstance(c.slice.slice, ast.Constant) and c.slice.slice.value == 1 for c in ast.walk(st)
+                )
+                if keyed_by_type:
+                    for k_, v_ in zip(n.keys, n.values):
+                        ints = tuple(x.value for x in v_.elts)
+                        found[k_.value] = (ints, True, v_.lineno)
+                        named[k_.value] = dict(zip(names5 or [f"#{i}" for i in range(5)], ints))
+                    break
+    ctx.need(len(found) >= 2, "veftopng.types", f"only {len(found)} type entries recognised (neither `if data[1] == k` branches nor a table keyed by data[1])")
     for k, want in VEF_TYPES.items():
         got = found.get(k)
         ok = got is not None and got[1] and sorted(got[0]) == sorted(want)
@@ -1279,12 +1388,21 @@ def d12(ctx: Ctx):
         want_type_col = tuple(VEF_TYPES[k][4] for k in ks)
         tvar = next((v for v, c in cols.items() if c == want_type_col), None)
         colours = {VEF_TYPES[k][4]: VEF_TYPES[k][2] for k in ks}
-        if tvar is not None:
+        if tvar is not None and any(isinstance(n, ast.If) and tvar in names_loaded(n.test) for n in ast.walk(st)):
             covered: Dict[int, int] = {}
             for n in ast.walk(st):
                 if isinstance(n, ast.If) and tvar in names_loaded(n.test) and any(isinstance(c, ast.Call) and call_name(c) == "append" for b in n.body for c in ast.walk(b)):
                     tks = [c.comparators[0].value for c in ast.walk(n.test) if isinstance(c, ast.Compare) and isinstance(c.left, ast.Name) and c.left.id == tvar and isinstance(c.ops[0], ast.Eq) and isinstance(c.comparators[0], ast.Constant)]
-                    n_app = sum(1 for b in n.body for c in ast.walk(b) if isinstance(c, ast.Call) and call_name(c) == "append")
+                    tks += [x.value for c in ast.walk(n.test) if isinstance(c, ast.Compare) and isinstance(c.left, ast.Name) and c.left.id == tvar and isinstance(c.ops[0], ast.In) and isinstance(c.comparators[0], (ast.Tuple, ast.List, ast.Set)) for x in c.comparators[0].elts if isinstance(x, ast.Constant)]
+                    n_app = 0
+                    for b in n.body:
+                        for c in ast.walk(b):
+                            if isinstance(c, ast.Call) and call_name(c) == "append":
+                                mult = 1
+                                for lp in ast.walk(b):
+                                    if isinstance(lp, ast.For) and any(x is c for x in ast.walk(lp)) and isinstance(lp.iter, (ast.Tuple, ast.List)):
+                                        mult *= len(lp.iter.elts)
+                                n_app += mult
                     for tk in tks:
                         covered[tk] = n_app
             for tk, ncol in sorted(colours.items()):
@@ -1303,20 +1421,36 @@ def d12(ctx: Ctx):
     un = D.fn("veftopng", "unsquash")
     ifs = [n for n in ast.walk(un) if isinstance(n, ast.If) and isinstance(n.test, ast.Compare) and isinstance(n.test.comparators[0], ast.Constant)]
     ctx.need(ifs, "unsquash", "repeat/literal split not found")
-    t = ifs[0].test
-    okt = isinstance(t.ops[0], ast.Gt) and t.comparators[0].value == 128 and bool(ifs[0].orelse)
-    ctx.ob("unsquash.threshold", okt, "" if okt else f"repeat groups are recognised by `{unparse(t)}`; the format uses count > 128 for a repeat (count - 128 copies) and count <= 128 for literals", file=rel, line=ifs[0].lineno, props=["C17"])
-    subs = [n for n in ast.walk(ifs[0]) if isinstance(n, ast.AugAssign) and isinstance(n.op, ast.Sub) and isinstance(n.value, ast.Constant) and n.value.value == 128]
-    ctx.ob("unsquash.minus128", bool(subs), "" if subs else "the repeat count is not reduced by 128", file=rel, line=ifs[0].lineno, props=["C17"])
-    whiles = [n for n in ast.walk(ifs[0]) if isinstance(n, ast.While)]
-    okw = len(whiles) >= 2
-    for w in whiles:
-        tt = w.test
-        if isinstance(tt, ast.Compare) and isinstance(tt.comparators[0], ast.Constant) and tt.comparators[0].value == 0:
-            okw = okw and isinstance(tt.ops[0], ast.Gt)
-        elif isinstance(tt, ast.Compare) and isinstance(tt.comparators[0], ast.Name):
-            okw = okw and isinstance(tt.ops[0], ast.Lt)
-    ctx.ob("unsquash.loop-bounds", okw, "" if okw else "the repeat / literal loops no longer run exactly `count` times", file=rel, line=un.lineno, props=["C17"])
+    # slots: the split test, what is taken off the count, how often the loops run - in whatever form they are written
+    split = next((n for n in ifs if len(n.test.ops) == 1 and isinstance(n.test.comparators[0].value, int) and n.test.comparators[0].value in (127, 128, 129)), None)
+    if split is None:
+        ctx.undecided("unsquash.threshold", "no test of the count byte against the repeat threshold recognised", file=rel, line=un.lineno, props=["C17"])
+    else:
+        t = split.test
+        k_ = t.comparators[0].value
+        # repeat iff count > 128 (equivalently >= 129); literal iff count <= 128 (< 129)
+        okt = (isinstance(t.ops[0], ast.Gt) and k_ == 128) or (isinstance(t.ops[0], ast.GtE) and k_ == 129) or (isinstance(t.ops[0], ast.LtE) and k_ == 128) or (isinstance(t.ops[0], ast.Lt) and k_ == 129)
+        ctx.ob("unsquash.threshold", okt, "" if okt else f"repeat groups are recognised by `{unparse(t)}`; the format uses count > 128 for a repeat (count - 128 copies) and count <= 128 for literals", file=rel, line=split.lineno, props=["C17"])
+        cvar = t.left.id if isinstance(t.left, ast.Name) else None
+        offs = [n.value.value for n in ast.walk(un) if isinstance(n, ast.AugAssign) and isinstance(n.op, ast.Sub) and isinstance(n.target, ast.Name) and n.target.id == cvar and isinstance(n.value, ast.Constant) and isinstance(n.value.value, int) and n.value.value > 1]
+        offs += [n.right.value for n in ast.walk(un) if isinstance(n, ast.BinOp) and isinstance(n.op, ast.Sub) and isinstance(n.left, ast.Name) and n.left.id == cvar and isinstance(n.right, ast.Constant) and isinstance(n.right.value, int) and n.right.value > 1]
+        offs += [0x7F for n in ast.walk(un) if isinstance(n, ast.BinOp) and isinstance(n.op, ast.BitAnd) and isinstance(n.left, ast.Name) and n.left.id == cvar and isinstance(n.right, ast.Constant) and n.right.value == 0x7F]
+        okm = bool(offs) and all(o in (128, 0x7F) for o in offs)
+        ctx.idiom("unsquash.minus128", bool(offs), okm, "" if okm else f"the repeat count is the count byte minus {offs}; the format stores count + 128", file=rel, line=split.lineno, props=["C17"])
+        # loops: `while c > 0: ...; c -= 1`, `while j < c`, `for _ in range(c)`, `[x] * c`
+        whiles = [n for n in ast.walk(un) if isinstance(n, ast.While) and n is not next((w for w in un.body if isinstance(w, ast.While)), None)]
+        bad_w = []
+        for w in whiles:
+            tt = w.test
+            if isinstance(tt, ast.Compare) and isinstance(tt.comparators[0], ast.Constant) and tt.comparators[0].value == 0 and not isinstance(tt.ops[0], ast.Gt):
+                bad_w.append(unparse(tt))
+            elif isinstance(tt, ast.Compare) and isinstance(tt.comparators[0], ast.Name) and not isinstance(tt.ops[0], ast.Lt):
+                bad_w.append(unparse(tt))
+        ranged = [n for n in ast.walk(un) if isinstance(n, ast.For) and isinstance(n.iter, ast.Call) and call_name(n.iter) == "range"]
+        bad_r = [unparse(n.iter) for n in ranged if not (len(n.iter.args) == 1 and isinstance(n.iter.args[0], ast.Name))]
+        seen_loops = bool(whiles) or bool(ranged)
+        okw = not bad_w and not bad_r
+        ctx.idiom("unsquash.loop-bounds", seen_loops, okw, "" if okw else f"the repeat / literal loops no longer run exactly `count` times ({bad_w + bad_r})", file=rel, line=un.lineno, props=["C17"])
     lenp = un.args.args[-1].arg if un.args.args else "?"
     outer = next((n for n in un.body if isinstance(n, ast.While)), None)
     cntp = un.args.args[1].arg if len(un.args.args) > 2 else "?"
@@ -1445,20 +1579,41 @@ def d9(ctx: Ctx):
     # util validators
     from .pyast import pyfacts
 
-    um = pyfacts(ctx).mod("coco/util.py")
-    for name, op in (("check_positive", "<="), ("check_zero_or_positive", "<")):
-        ctx.need(name in um.functions, f"util.{name}", "not found")
-        f = um.functions[name]
-        cmp_ = next((n for n in ast.walk(f) if isinstance(n, ast.Compare)), None)
-        txt = unparse(cmp_) if cmp_ is not None else ""
-        ok = re.fullmatch(rf"ivalue {re.escape(op)} 0", txt) is not None
-        raises = any(isinstance(n, ast.Raise) for n in ast.walk(f))
-        ctx.ob(f"util.{name}", ok and raises, "" if ok and raises else f"`{name}` rejects values with `{txt}`", file="coco/util.py", line=f.lineno)
-    gb = um.functions.get("getbit")
+    from .decoders import IntEvalError, int_eval
+    from .normalise import normalise_module
+
+    um0 = pyfacts(ctx).mod("coco/util.py")
+    ut = normalise_module(um0.tree)
+    ufuncs = {n.name: n for n in ut.body if isinstance(n, ast.FunctionDef)}
+    # decided on boundary values: the smallest admitted and the largest refused value
+    for name, lowest in (("check_positive", 1), ("check_zero_or_positive", 0)):
+        ctx.need(name in ufuncs, f"util.{name}", "not found")
+        f = ufuncs[name]
+        gates = [n for n in ast.walk(f) if isinstance(n, ast.If) and any(isinstance(x, ast.Raise) for b in n.body for x in ast.walk(b))]
+        conv = [a.targets[0].id for a in ast.walk(f) if isinstance(a, ast.Assign) and isinstance(a.targets[0], ast.Name) and isinstance(a.value, ast.Call) and call_name(a.value) == "int"]
+        if len(gates) != 1 or len(conv) != 1:
+            ctx.undecided(f"util.{name}", "`ivalue = int(value)` followed by one refusing test not recognised", file="coco/util.py", line=f.lineno)
+            continue
+        try:
+            refuses_low = bool(int_eval(gates[0].test, {conv[0]: lowest - 1}))
+            refuses_ok = bool(int_eval(gates[0].test, {conv[0]: lowest}))
+            refuses_big = bool(int_eval(gates[0].test, {conv[0]: 100000}))
+        except IntEvalError as ex:
+            ctx.undecided(f"util.{name}", f"refusing test `{unparse(gates[0].test)}` not evaluable: {ex}", file="coco/util.py", line=f.lineno)
+            continue
+        ok = refuses_low and not refuses_ok and not refuses_big
+        ctx.ob(f"util.{name}", ok, "" if ok else f"`{name}` refuses on `{unparse(gates[0].test)}`: {lowest - 1} refused: {refuses_low}, {lowest} refused: {refuses_ok} (the validator has to admit exactly the values >= {lowest})", file="coco/util.py", line=f.lineno)
+    gb = ufuncs.get("getbit")
     ctx.need(gb is not None, "util.getbit", "not found")
     ret = next((n for n in ast.walk(gb) if isinstance(n, ast.Return)), None)
-    okg = ret is not None and re.fullmatch(r"1 if c & 1 << ii else 0", unparse(ret.value)) is not None
-    ctx.ob("util.getbit", okg, "" if okg else f"getbit returns `{unparse(ret.value) if ret else None}`", file="coco/util.py", line=gb.lineno, props=["C16", "C18"])
+    pn = [a.arg for a in gb.args.args]
+    okg = None
+    if ret is not None and ret.value is not None and len(pn) == 2:
+        try:
+            okg = all(int(int_eval(ret.value, {pn[0]: c_, pn[1]: k_})) == ((c_ >> k_) & 1) for c_ in (0, 1, 2, 0x55, 0xAA, 0x80, 0xFF, 0x1234) for k_ in range(8))
+        except IntEvalError:
+            okg = None
+    ctx.idiom("util.getbit", okg is not None, bool(okg), "" if okg else f"getbit returns `{unparse(ret.value) if ret else None}`, which is not bit ii of c", file="coco/util.py", line=gb.lineno, props=["C16", "C18"])
 
 
 def _dests(st: ast.FunctionDef) -> Set[str]:
@@ -1557,10 +1712,16 @@ def d15(ctx: Ctx):
             continue
         if any(_is_out_write(c, outs) for c in ast.walk(st)):
             break
-        reads = [c for c in ast.walk(st) if isinstance(c, ast.Call) and call_name(c) == "read" and isinstance(c.func, ast.Attribute)]
+        scope_ = st.test if isinstance(st, ast.If) else st
+        reads = [c for c in ast.walk(scope_) if isinstance(c, ast.Call) and call_name(c) == "read" and isinstance(c.func, ast.Attribute)]
+        if isinstance(st, ast.If):
+            # reads inside the branches of a header test are only tolerated when the branch gives up on the file
+            for br in (st.body, st.orelse):
+                if any(isinstance(c, ast.Call) and call_name(c) == "read" and isinstance(c.func, ast.Attribute) for b in br for c in ast.walk(b)):
+                    ctx.need(any(isinstance(x, (ast.Raise, ast.Return)) or (isinstance(x, ast.Call) and call_name(x) == "exit") for b in br for x in ast.walk(b)), "mgetoppm.header", f"conditional header read at line {st.lineno} (cannot lay out the header)")
         if not reads:
             continue
-        ctx.need(len(reads) == 1 and not isinstance(st, (ast.For, ast.While, ast.If)), "mgetoppm.header", f"header read at line {st.lineno} is not a plain statement (cannot lay out the header)")
+        ctx.need(len(reads) == 1 and not isinstance(st, (ast.For, ast.While)), "mgetoppm.header", f"header read at line {st.lineno} is not a plain statement (cannot lay out the header)")
         rd = reads[0]
         size = rd.args[0].value if rd.args and isinstance(rd.args[0], ast.Constant) else None
         ctx.need(isinstance(size, int), "mgetoppm.header", f"read size at line {st.lineno} is not a constant")
